@@ -551,25 +551,25 @@ fn case<S: ShortGroupSignatureScheme>(v: &Value) -> Value {
             let c = p.challenge;
             let mut reports = vec![];
             for st in w.statements.iter() {
-                let (sid, rid, claim, gens, leaves, byte_ct): (String, String, usize, Vec<(&str, G1Projective)>, Vec<(&str, G1Projective)>, Option<(Vec<G1Projective>, Vec<Scalar>)>) = match st {
+                let (sid, rid, claim, gens, leaves, byte_ct, bresp): (String, String, usize, Vec<(&str, G1Projective)>, Vec<(&str, G1Projective)>, Option<(Vec<G1Projective>, Vec<Scalar>)>, Scalar) = match st {
                     Statements::Commitment(s) => match p.proofs.get(&s.id) {
                         Some(PresentationProofs::Commitment(cp)) => (s.id.clone(), s.reference_id.clone(), s.claim,
                             vec![("G", G1Projective::GENERATOR), ("gm", s.message_generator), ("gb", s.blinder_generator)],
-                            vec![("commitment", cp.commitment)], None),
+                            vec![("commitment", cp.commitment)], None, cp.blinder_proof),
                         _ => continue,
                     },
                     Statements::VerifiableEncryption(s) => match p.proofs.get(&s.id) {
                         Some(PresentationProofs::VerifiableEncryption(vp)) => (s.id.clone(), s.reference_id.clone(), s.claim,
                             vec![("G", G1Projective::GENERATOR), ("gm", s.message_generator), ("ek", s.encryption_key.0)],
                             vec![("c1", vp.c1), ("c2", vp.c2)],
-                            vp.decryptable_scalar_proof.as_ref().map(|d| (d.byte_ciphertext.c1.to_vec(), d.byte_proofs.iter().map(|b| b.message).collect()))),
+                            vp.decryptable_scalar_proof.as_ref().map(|d| (d.byte_ciphertext.c1.to_vec(), d.byte_proofs.iter().map(|b| b.message).collect())), vp.blinder_proof),
                         _ => continue,
                     },
                     Statements::VerifiableEncryptionDecryption(s) => match p.proofs.get(&s.id) {
                         Some(PresentationProofs::VerifiableEncryptionDecryption(vp)) => (s.id.clone(), s.reference_id.clone(), s.claim,
                             vec![("G", G1Projective::GENERATOR), ("gm", s.message_generator), ("ek", s.encryption_key.0)],
                             vec![("c1", vp.c1), ("c2", vp.c2)],
-                            Some((vp.byte_ciphertext.c1.to_vec(), vp.byte_proofs.iter().map(|b| b.message).collect()))),
+                            Some((vp.byte_ciphertext.c1.to_vec(), vp.byte_proofs.iter().map(|b| b.message).collect())), vp.blinder_proof),
                         _ => continue,
                     },
                     _ => continue,
@@ -609,6 +609,31 @@ fn case<S: ShortGroupSignatureScheme>(v: &Value) -> Value {
                             let hits: Vec<bool> = cands.iter().map(|m| *l == *q1 * *m + *q2 * (mp - c * *m)).collect();
                             if hits.iter().any(|h| *h) {
                                 tests.push(json!({"test": format!("{ln} == m'*{q1n} + (resp - c*m')*{q2n}"), "true_value": hits[0], "decoys": hits[1..].iter().filter(|h| **h).count()}));
+                            }
+                        }
+                    }
+                }
+                // degenerate randomness of the statement's own blinding factor beta (response bresp = nonce + c*beta):
+                // nonce == beta, nonce == 0, nonce == the claim's nonce; with beta known L - Q2*beta == Q1*m' is a dictionary test
+                {
+                    let inv = |x: Scalar| Option::<Scalar>::from(x.invert()).unwrap_or(Scalar::ZERO);
+                    let fixed = [("bresp/(1+c)", bresp * inv(Scalar::ONE + c)), ("bresp/c", bresp * inv(c))];
+                    for (ln, l) in leaves.iter() {
+                        for (q1n, q1) in gens.iter() {
+                            for (q2n, q2) in gens.iter() {
+                                if q1n == q2n {
+                                    continue;
+                                }
+                                for (bn, beta) in fixed.iter() {
+                                    let hits: Vec<bool> = cands.iter().map(|m| *l - *q2 * *beta == *q1 * *m).collect();
+                                    if hits.iter().any(|h| *h) {
+                                        tests.push(json!({"test": format!("{ln} - {q2n}*({bn}) == m'*{q1n} (the blinding factor is recoverable)"), "true_value": hits[0], "decoys": hits[1..].iter().filter(|h| **h).count()}));
+                                    }
+                                }
+                                let hits: Vec<bool> = cands.iter().map(|m| *l - *q2 * ((bresp - mp) * inv(c) + *m) == *q1 * *m).collect();
+                                if hits.iter().any(|h| *h) {
+                                    tests.push(json!({"test": format!("{ln} - {q2n}*((bresp - resp)/c + m') == m'*{q1n} (blinding nonce = claim nonce)"), "true_value": hits[0], "decoys": hits[1..].iter().filter(|h| **h).count()}));
+                                }
                             }
                         }
                     }
